@@ -264,9 +264,16 @@ func ribViaGet(r *rib.RIB, dflt string) (*rib.RIB, error) {
 // ribViaRemote serves r from a real server (server.NewFake + InjectRIB) over an in-memory gRPC
 // connection and reads it back the way a remote reconciliation target is read: RemoteRIB.Get.
 func ribViaRemote(r *rib.RIB, dflt string) (*rib.RIB, error) {
+	a, _, err := ribViaRemote2(r, nil, dflt)
+	return a, err
+}
+
+// ribViaRemote2: the same RemoteRIB read a second time after the server's RIB has been replaced by
+// next (when next is not nil): what it returns is what the server holds then.
+func ribViaRemote2(r, next *rib.RIB, dflt string) (*rib.RIB, *rib.RIB, error) {
 	fs, err := server.NewFake()
 	if err != nil {
-		return nil, err
+		return nil, nil, err
 	}
 	fs.InjectRIB(r)
 	lis := bufconn.Listen(1 << 20)
@@ -276,16 +283,22 @@ func ribViaRemote(r *rib.RIB, dflt string) (*rib.RIB, error) {
 	defer gs.Stop()
 	conn, err := grpc.NewClient("passthrough:///bufnet", grpc.WithContextDialer(func(ctx context.Context, _ string) (net.Conn, error) { return lis.DialContext(ctx) }), grpc.WithTransportCredentials(insecure.NewCredentials()))
 	if err != nil {
-		return nil, err
+		return nil, nil, err
 	}
 	defer conn.Close()
 	rr, err := reconciler.NewRemoteRIBWithStub(dflt, spb.NewGRIBIClient(conn))
 	if err != nil {
-		return nil, err
+		return nil, nil, err
 	}
 	ctx, cancel := context.WithTimeout(context.Background(), 20*time.Second)
 	defer cancel()
-	return rr.Get(ctx)
+	first, err := rr.Get(ctx)
+	if err != nil || next == nil {
+		return first, nil, err
+	}
+	fs.InjectRIB(next)
+	second, err := rr.Get(ctx)
+	return first, second, err
 }
 
 func reconCase(seed uint64, idx int) *CaseSpec {
@@ -332,9 +345,16 @@ func reconCase(seed uint64, idx int) *CaseSpec {
 		}
 		if idx%2 == 0 {
 			// the same through a real server and reconciler.RemoteRIB
-			if back, err := ribViaRemote(T, sT.nis[0]); err != nil {
+			if back, back2, err := ribViaRemote2(T, I, sT.nis[0]); err != nil {
 				t.Add("rc.roundtrip 0 %s", S("RemoteRIB.Get: "+err.Error()))
 			} else {
+				if back2 != nil {
+					lb2, _, err2 := entsLine(back2)
+					li2, _, err3 := entsLine(I)
+					if err2 == nil && err3 == nil && lb2 != li2 {
+						t.Add("rc.roundtrip 0 %s", S("RemoteRIB.Get, read again after the server's RIB was replaced, does not return what the server holds now"))
+					}
+				}
 				lb, _, err := entsLine(back)
 				if err != nil {
 					return t, err
